@@ -185,6 +185,24 @@ def run(ctx, prop):
                         rc, err = E.run_idlc(ctx, root, "main.idl", [], b, o)
                         new = _read(o)
                         lang = "rust" if b == "rust" else "c"
+                        # correspondence with the Lean model of documentation.rs: the emitted comment
+                        # is exactly the model's rendering of the text pst.rs keeps (raw[2..len-1])
+                        if rc == 0 and b in ("c", "cpp", "rust", "java") and re.match(r"/\*\*\r?\n", doc):   # `/** x */` on one line is an ordinary comment
+                            window = doc.strip()[2:-1].encode("utf-8")
+                            style = {"c": "c", "cpp": "c", "rust": "rust", "java": "java"}[b]
+                            ans = ctx.driver.ask(f"doc {style} {window.hex()}")
+                            ctx.bump("driver_requests")
+                            hist["doc_model_checks"] = hist.get("doc_model_checks", 0) + 1
+                            if ans and ans[0].startswith("ok "):
+                                want = bytes.fromhex(ans[0][3:]).decode("utf-8", "replace")
+                                flat = lambda t_: "\n".join(x.strip() for x in t_.split("\n"))
+                                # trim_end of the real code also removes non-ASCII white space; the
+                                # texts generated here end lines in ASCII only
+                                if flat(want) not in flat(new):
+                                    disagree.append({"case": {"idl": open(mainp).read()[:400]}, "backend": b,
+                                                     "model_rendering": want[:300], "note": "the model's rendering of the documentation is not in the output"})
+                            elif ans and ans[0] == "panic":
+                                disagree.append({"case": {"idl": open(mainp).read()[:400]}, "backend": b, "note": "model: renderDoc panics, real: exit 0"})
                         if rc != 0 or strip_comments(new, lang) != strip_comments(outs[b][1], lang):
                             oracle_fail.append({"case": {"idl": open(mainp).read()[:600]}, "failures": [
                                 {"error": "a documentation comment changed more than comment text", "backend": b, "rc": rc}]})
